@@ -284,6 +284,7 @@ class Mitm:
         self.applied = []
         self.rec = None
         self.finned = set()                   # directions ended by a FIN
+        self.preinserted = set()
 
     def attach(self, rec, ct, st):
         self.rec = rec
@@ -300,6 +301,18 @@ class Mitm:
         d = 'cs' if transport.name == 'c' else 'sc'
         self.rec.events.append(('w', d, data))
         if not self.enc[d]:
+            pre = [a for a in self.actions if a['op'] == 'preinsert']
+            if pre and d not in self.preinserted and len(data) > 5 and \
+                    data[5] == 20 and not data.startswith(b'SSH-'):
+                # an IGNORE message in front of the first KEXINIT
+                self.preinserted.add(d)
+                for a in pre:
+                    if not a.get('done'):
+                        a['done'] = True
+                        self.applied.append(dict(a))
+                ignore = (12).to_bytes(4, 'big') + bytes([6, 2, 0, 0, 0, 0]) \
+                    + bytes(6)
+                return [ignore, data]
             return [data]
         self.count[d] += 1
         n = self.count[d]
